@@ -1,0 +1,62 @@
+//go:build verif
+
+// Contracts for the deductive verifier in /verif (comment-only; compiled only
+// with -tags verif).  Syntax: see /verif/DESIGN.md.
+package commands
+
+// C13.  fexists/fdata are the ghost file system; hexsha is hex(SHA-256).  An
+// object is reported intact exactly when its file exists and hashes to its
+// id, or when it cannot be opened and the pointer says it is empty.
+//@ func fsckPointer
+//@   props C13
+//@   requires @inv oid != fs.EmptyObjectSHA256
+//@   modifies fresh
+//@   dead return4
+//@   ensures result1 == nil ==> result0 == ((fexists(objpath(oid)) && hexsha(fdata(objpath(oid))) == oid) || (!fexists(objpath(oid)) && size == 0))
+
+// The per-object callback records exactly the objects that are not intact.
+//@ func doFsckObjects$1
+//@   props C13
+//@   requires @inv p != nil && p.Pointer != nil && p.Oid != fs.EmptyObjectSHA256
+//@   ensures ((fexists(objpath(p.Oid)) && hexsha(fdata(objpath(p.Oid))) == p.Oid) || (!fexists(objpath(p.Oid)) && p.Size == 0)) ==> corruptOids == old(corruptOids)
+//@   ensures !((fexists(objpath(p.Oid)) && hexsha(fdata(objpath(p.Oid))) == p.Oid) || (!fexists(objpath(p.Oid)) && p.Size == 0)) ==> len(corruptOids) == old(len(corruptOids)) + 1 && corruptOids[old(len(corruptOids))] == p.Oid
+
+// Exit status and repair: success is reported only when nothing was found;
+// corrupt objects are moved (never removed), only without --dry-run, from
+// their object path to a path outside the object store.
+//@ func fsckCommand
+//@   props C13
+//@   forbid os.Remove
+//@   forbid os.RemoveAll
+//@   at call commands.Print:1 assert len(corruptOids) == 0 && len(corruptPointers) == 0
+//@   at call os.Rename:1 assert !fsckDryRun && (srcFile == objpath(oid) || srcFile == devnull)
+
+//@ func (*github.com/git-lfs/git-lfs/v3/config.Configuration).Filesystem
+//@   assumed
+//@   props C13
+//@   modifies fresh
+//@   ensures result != nil
+
+// Terminal output and process exit helpers (assumed): printing changes no
+// program or file-system state; the exit helpers do not return.
+//@ func Print
+//@   assumed
+//@   noeffect
+//@ func Error
+//@   assumed
+//@   noeffect
+//@ func Exit
+//@   assumed
+//@   noeffect
+//@   ensures false
+//@ func ExitWithError
+//@   assumed
+//@   noeffect
+//@   ensures false
+//@ func Panic
+//@   assumed
+//@   noeffect
+//@   ensures false
+//@ func LoggedError
+//@   assumed
+//@   noeffect
